@@ -247,3 +247,14 @@ if __name__ == '__main__':
     t = time.time()
     print(ensure_built())
     print('%.1fs' % (time.time() - t))
+
+
+def reset_group_counter():
+    """pysph names every Group 'Group_<n>' from a process-wide counter and the
+    name is written into the generated source (profiling labels), so the
+    same problem built twice in one process gets two different source
+    hashes and is compiled twice.  The harness owns this piece of global
+    state: resetting it before a case is built makes the generated source a
+    function of the case alone."""
+    import pysph.sph.equation as E
+    E.group_counter = E._counter()
